@@ -1621,6 +1621,11 @@ func (p *Parser) parseIdentifierArrowFunc(v *Var) (arrowFunc *ArrowFunc) {
 }
 
 func (p *Parser) parseArrowFuncBody() (list []IStmt) {
+	// what follows is never part of an arrow function parameter list, even when we are inside a parenthesized expression that may turn out to be one
+	prevAssumeArrowFunc := p.assumeArrowFunc
+	p.assumeArrowFunc = false
+	defer func() { p.assumeArrowFunc = prevAssumeArrowFunc }()
+
 	// expect we're at arrow
 	if p.tt != ArrowToken {
 		p.fail("arrow function", ArrowToken)
